@@ -49,6 +49,7 @@ def setup(ctx):
     ctx.require("monitor", "protocol_uploads", 24)
     ctx.require("monitor", "sequence_requests", 50)
     ctx.require("monitor", "churn_requests", 14)
+    ctx.require("monitor", "lookalike_media_types", 20)
     ctx.require("monitor", "refused_by_middleware", 30)
 
 
@@ -613,6 +614,18 @@ def run(ctx):
                         if ctx.quick() and (k // ctx.nshards) % 6:
                             continue
                         run_one(ctx, rng, cfg, pspec, size, mime, tok)
+    # ---- media types that merely resemble an allowed one (a longer type that starts with it, a shorter one it starts
+    # with, another case, surrounding blanks): "within the allowed media types" means being one of them
+    for cfg in configs:
+        if not cfg["types"]:
+            continue
+        for pspec in (PATHS[0], PATHS[1], PATHS[3]):
+            for mime in ("text/plainx", "text/plain.evil", "text/pla", "text", "text/plain+xml", "text/plain%20", "xtext/plain", "text/plain/extra"):
+                k += 1
+                if not ctx.mine(k):
+                    continue
+                ctx.count("monitor", "lookalike_media_types")
+                run_one(ctx, rng, cfg, pspec, 9, mime, ("good", "valid"))
     # ---- faults: every call index of the storing sequence, for storing / replacing / deleting
     cfg = configs[1]
     fault_targets = [PATHS[0], PATHS[1], PATHS[2], PATHS[4], PATHS[20], PATHS[22]]
